@@ -76,6 +76,7 @@ func runC06(c *Check, a *Analysis) {
 	sc := siteCounter{}
 	ruleHeaderFresh(c, a, "R-HEADER-FRESH")
 	ruleCodeThresholds(c, a, "R-CODE-THRESHOLD")
+	ruleReaderExitCause(c, a, "R-READER-EXIT-CAUSE")
 
 	// ---- R-MUST-RESPOND
 	c.Rule("R-MUST-RESPOND", "every server failure edge stores err.Error() into Context.Error before the response is sent and the response is still sent", 3)
